@@ -80,11 +80,22 @@ def lax_gather_to_gir(
                     if indices_var_value is not None and check_uniform_start_index(
                         indices_var_value, indices_var_idx
                     ):
-                        entry["start_offset_value"] = int(
+                        static_start = int(
                             np.reshape(indices_var_value[..., indices_var_idx], (-1,))[
                                 0
                             ]
                         )  # so we know the static uniform start index, this means this is a simple slice operation
+                        # XLA clamps the start so that the slice fits (mode clip and
+                        # promise_in_bounds); an ONNX Slice would silently truncate.
+                        mode_name = str(
+                            getattr(eqn.params.get("mode"), "name", eqn.params.get("mode"))
+                        ).upper()
+                        if mode_name in {"CLIP", "PROMISE_IN_BOUNDS"} and isinstance(
+                            operand_shape[dim], (int, np.integer)
+                        ):
+                            max_start = int(operand_shape[dim]) - int(slice_sizes[dim])
+                            static_start = min(max(static_start, 0), max(max_start, 0))
+                        entry["start_offset_value"] = static_start
                     else:
                         entry["mode"] = "dynamic_range_slice"
                     entry["start_indices_var_index"] = (
